@@ -25,7 +25,7 @@ def _mk_solver(timeout_ms, seed):
     return s
 
 
-def prove(assumptions, goal, timeout_ms=DEFAULT_TIMEOUT_MS, seed=0, use_cvc5=True, extra=()):
+def prove(assumptions, goal, timeout_ms=DEFAULT_TIMEOUT_MS, seed=0, use_cvc5=True, extra=(), portfolio=True):
     """Is  /\\ assumptions => goal  valid (given the ground real-analysis instances)?"""
     t0 = time.time()
     neg = z3.Not(goal)
@@ -53,6 +53,8 @@ def prove(assumptions, goal, timeout_ms=DEFAULT_TIMEOUT_MS, seed=0, use_cvc5=Tru
     if r == z3.sat:
         return Verdict("failed", time.time() - t0, "z3", model=s.model(), n_instances=len(inst))
     reason = s.reason_unknown()
+    if not portfolio:
+        return Verdict("unknown", time.time() - t0, "z3", n_instances=len(inst), reason=reason)
     if nlsat(min(timeout_ms, 15000)) == z3.unsat:
         return Verdict("proved", time.time() - t0, "z3-nlsat", n_instances=len(inst))
     if use_cvc5:
